@@ -1000,6 +1000,11 @@ package psatoken
 //@   assumes[def-malformed] (ret != nil) == keyMalformed(pk) :: definition: malformed = what this function refuses; audited by bounded:decode-no-panic
 //@   modifies nothing
 
+//@ func knownAlgorithm
+//@   property C03 C19 C02 C05
+//@   ensures[def] ret == specCoseAlg(alg)
+//@   modifies nothing
+
 //@ func (*Evidence).doSign
 //@   property C03 C19 C02 C05
 //@   ensures[alg-refused] !specCoseAlg(signerAlg(signer)) ==> ret1 != nil
